@@ -176,10 +176,13 @@ fn c09(c: &Case) {
         "tool" => Arc::new(Tool { robot: inner.clone(), tool: xp }),
         "base" => Arc::new(Base { robot: inner.clone(), base: xp }),
         "frame" => Arc::new(Frame { robot: inner.clone(), frame: xp }),
+        // nested: the frame is applied to a robot that already carries a (fixed, rotated) tool; forward and every inverse must agree on robot * tool * frame
+        "frame_over_tool" => Arc::new(Frame { robot: Arc::new(Tool { robot: inner.clone(), tool: pose_of(&euler_iso(&[0.4, -0.3, 0.2], &[0.03, -0.02, 0.11])) }), frame: xp }),
         _ => { println!("error=wrapper {} cannot be constructed from outside the crate", wrapper); println!("reproduced=false"); return; }
     };
     let left = wrapper == "base";
-    let stack = |q: &[f64; 6]| -> Iso { let f = fk(&o, q); if left { compose(&x, &f) } else { compose(&f, &x) } };
+    let nested_tool = euler_iso(&[0.4, -0.3, 0.2], &[0.03, -0.02, 0.11]);
+    let stack = |q: &[f64; 6]| -> Iso { let f = fk(&o, q); if wrapper == "frame_over_tool" { compose(&compose(&f, &nested_tool), &x) } else if left { compose(&x, &f) } else { compose(&f, &x) } };
     let mut bad: Vec<String> = Vec::new();
     for q in SEEDS.iter() {
         let pose = stack(q); let pp = pose_of(&pose);
@@ -237,6 +240,12 @@ fn c16(c: &Case) {
             "inverse_5dof" | "inverse_continuing_5dof" => {
                 let sols = if method == "inverse_5dof" { w.inverse_5dof(&pp, q[5]) } else { w.inverse_continuing_5dof(&pp, q) };
                 for s in &sols { if dist(&wfk(s).t, &pose.t) > 2e-6 { bad.push(format!("5-DOF answer {:?} misses the tool point", s)); } }
+                // a caller-fixed J6 more than half a turn away (it may be the driving joint): the answers still map back onto the tool point
+                for j6 in [4.0f64, -5.5, 9.0] {
+                    let mut q2 = *q; q2[5] = j6; let pose2 = wfk(&q2); let pp2 = pose_of(&pose2);
+                    let sols = if method == "inverse_5dof" { w.inverse_5dof(&pp2, j6) } else { w.inverse_continuing_5dof(&pp2, &q2) };
+                    for s in &sols { if dist(&wfk(s).t, &pose2.t) > 2e-6 { bad.push(format!("5-DOF answer {:?} (J6 fixed at {}) misses the tool point", s, j6)); } }
+                }
             }
             _ => {}
         }
@@ -314,6 +323,15 @@ fn c17(c: &Case) {
             for q in SEEDS.iter() { let (sols, pose) = fr.forward_transformed(q, q); let want = compose(&x, &fk(&o, q));
                 if !close_iso(&iso_of(&pose), &want, 1e-7) { bad.push("forward_transformed pose != frame * forward".into()); }
                 for s in &sols { if !close_iso(&fk(&o, s), &want, 2e-6) { bad.push("forward_transformed answer does not realise the moved pose".into()); } }
+                // the answers continue from the GIVEN previous joints (not from qs): a previous wound by a full turn on J6 / J4 keeps that turn in the first answer
+                if let Some(first_same) = sols.first().cloned() {
+                    for (jj, turn) in [(5usize, 2.0 * std::f64::consts::PI), (3, -2.0 * std::f64::consts::PI)] {
+                        let mut prev = first_same; prev[jj] += turn;
+                        let (s2, _) = fr.forward_transformed(q, &prev);
+                        match s2.first() { None => bad.push("forward_transformed: no answer when previous is wound by a turn".into()),
+                            Some(f2) => if (f2[jj] - prev[jj]).abs() > 1e-6 { bad.push(format!("forward_transformed: previous joint {} = {:.4} (a full turn away from qs) but the first answer has {:.4}: not continued from the given previous", jj + 1, prev[jj], f2[jj])); } }
+                    }
+                }
                 for w2 in sols.windows(2) { let d = |s: &[f64; 6]| (0..6).map(|i| (s[i] - q[i]).abs()).sum::<f64>(); if d(&w2[0]) > d(&w2[1]) + 1e-9 { bad.push("answers not ordered by closeness to previous".into()); } } }
         }
     }
@@ -426,15 +444,56 @@ pub fn c10(c: &Case) {
                 let q = [0.0; 6];
                 let given = SafetyDistances { to_environment: 0.0, to_robot_default: 0.0, special_distances: HashMap::new(), mode: given_mode };
                 let got = body.near(&q, &kin, &given);
-                let has = got.iter().any(|p| p.0 == pair.0.min(pair.1) && p.1 == pair.0.max(pair.1));
+                // the tool rides on link 5: an obstacle coinciding with the tool coincides with link 5 too, and first-collision mode may report either pair
+                let is_hit = |p: &(usize, usize)| (p.0 == pair.0.min(pair.1) && p.1 == pair.0.max(pair.1)) || (pair.0 == J_TOOL && p.0 == 5 && p.1 == pair.1);
+                let has = got.iter().any(|p| is_hit(p));
                 if has != given_checks { bad.push(format!("near(): bodies {:?} coincide, body built with mode {:?}, table passed to near() has mode {:?}: reported={} (the passed table decides)", pair, body_mode, given_mode, has)); }
                 let det = body.collision_details(&q, &kin);
-                let hasd = det.iter().any(|p| p.0 == pair.0.min(pair.1) && p.1 == pair.0.max(pair.1));
+                let hasd = det.iter().any(|p| is_hit(p));
                 if hasd != body_checks { bad.push(format!("collision_details(): bodies {:?} coincide, body mode {:?}: reported={}", pair, body_mode, hasd)); }
                 if body.collides(&q, &kin) != body_checks { bad.push(format!("collides(): bodies {:?} coincide, body mode {:?}: answer {}", pair, body_mode, !body_checks)); }
             }
         }
         println!("native_cases={}", n); bad.dedup(); for b in bad.iter().take(5) { println!("diff={}", b); } println!("reproduced={}", !bad.is_empty()); return;
+    }
+    if clause == "verdict" {
+        // positive safety distances: a pair is reported exactly when parry's own distance between the two placed meshes is within the pair's distance.
+        // The two bodies differ in vertex count (either order), are placed at arbitrary poses, never nested (the surface-only pre-filter is outside the claim).
+        let mut rng = crate::battery::Lcg(9917 + c.fo("seed", 0.0) as u64); let mut n = 0; let (mut close, mut far) = (0, 0);
+        let slab = { let a = cube(0.5); let b = rs_opw_kinematics::collisions::transform_mesh(&cube(0.5), &nalgebra::Isometry3::translation(1.0, 0.0, 0.0));
+                     let mut v: Vec<nalgebra::Point3<f32>> = a.vertices().to_vec(); v.extend_from_slice(b.vertices());
+                     let mut idx: Vec<[u32; 3]> = a.indices().to_vec(); idx.extend(b.indices().iter().map(|t| [t[0] + 8, t[1] + 8, t[2] + 8])); TriMesh::new(v, idx).unwrap() };
+        let r = 0.1f32;
+        let mut tries = 0;
+        while n < 48 && tries < 4000 {
+            tries += 1;
+            let rot = |g: &mut crate::battery::Lcg| nalgebra::UnitQuaternion::from_euler_angles(g.range(-3.1, 3.1), g.range(-1.5, 1.5), g.range(-3.1, 3.1));
+            let ti = nalgebra::Isometry3::from_parts(nalgebra::Translation3::new(20.0 + rng.range(-2.0, 2.0), rng.range(-3.0, 3.0), rng.range(-3.0, 3.0)), rot(&mut rng));
+            let off = nalgebra::Isometry3::from_parts(nalgebra::Translation3::new(rng.range(-1.0, 2.0), rng.range(-1.1, 1.1), rng.range(-1.1, 1.1)), rot(&mut rng));
+            let tj = ti * off;
+            let (ti32, tj32): (nalgebra::Isometry3<f32>, nalgebra::Isometry3<f32>) = (ti.cast(), tj.cast());
+            let small = cube(0.2);
+            let d = match parry3d::query::distance(&ti32, &slab, &tj32, &small) { Ok(d) => d, Err(_) => continue };
+            let hit = parry3d::query::intersection_test(&ti32, &slab, &tj32, &small).unwrap_or(true);
+            if hit || d < 0.01 { continue; }
+            let want = if d < 0.08 { if close >= 24 { continue; } close += 1; true } else if d > 0.13 && d < 0.5 { if far >= 24 { continue; } far += 1; false } else { continue };
+            n += 1;
+            // (a) the many-vertex body is the link (first in the task), the small one the obstacle; (b) the other way round
+            for swap in [false, true] {
+                let mut poses = [at(0.0), at(10.0), at(20.0), at(30.0), at(40.0), at(50.0)]; poses[2] = if swap { tj } else { ti };
+                let mut meshes = [cube(0.5), cube(0.5), cube(0.5), cube(0.5), cube(0.5), cube(0.5)]; meshes[2] = if swap { small.clone() } else { slab.clone() };
+                let body = RobotBody { joint_meshes: meshes, tool: None, base: None,
+                    collision_environment: vec![CollisionBody { mesh: if swap { slab.clone() } else { small.clone() }, pose: if swap { ti32 } else { tj32 } }],
+                    safety: SafetyDistances { to_environment: r, to_robot_default: 0.0, special_distances: HashMap::new(), mode: CheckMode::AllCollsions } };
+                let kin = FixedPoses { poses, cons: None };
+                let got = body.collision_details(&[0.0; 6], &kin);
+                let has = got.iter().any(|p| p.0 == 2 && p.1 == ENV_START_IDX);
+                if has != want { bad.push(format!("link 2 and the obstacle are {} m apart (parry distance), safety distance {}: reported={} (many-vertex body is the {}; link pose {:?}, obstacle pose {:?})", d, r, has, if swap { "obstacle" } else { "link" }, poses[2], if swap { ti32 } else { tj32 })); }
+                if body.collides(&[0.0; 6], &kin) != want { bad.push(format!("collides() = {} for bodies {} m apart with safety distance {}", !want, d, r)); }
+            }
+        }
+        if close < 10 || far < 10 { bad.push(format!("vacuous battery: {} close and {} far placements", close, far)); }
+        println!("native_cases={}", 2 * n); bad.dedup(); for b in bad.iter().take(5) { println!("diff={}", b); } println!("reproduced={}", !bad.is_empty()); return;
     }
     if clause != "tasks" { println!("note=clause {} has no native replay (oracle-level obligation)", clause); println!("reproduced=false"); return; }
     let (tool, base, nenv) = (c.fo("tool", 1.0) != 0.0, c.fo("base", 1.0) != 0.0, c.fo("nenv", 1.0) as usize);
@@ -655,6 +714,18 @@ pub fn c15(c: &Case) {
                         if (jm[3 + k][i] - z[k]).abs() > 200.0 * eps + 1e-8 / eps * 1e-7 { bad.push(format!("J[{}][{}] = {} but the joint axis gives {} (eps {}, wrapped {})", 3 + k, i, jm[3 + k][i], z[k], eps, wrapped)); }
                     }
                 }
+                // the step used is the step given: the translation rows equal the forward difference of `forward` taken with exactly this eps
+                {
+                    let fw = |qq: &[f64; 6]| if wrapped { stack.forward(qq) } else { bare.forward(qq) };
+                    let f0 = fw(q);
+                    for i in 0..6 {
+                        let mut qp = *q; qp[i] += eps; let fi = fw(&qp);
+                        for k in 0..3 {
+                            let fd = (fi.translation.vector[k] - f0.translation.vector[k]) / eps;
+                            if (jm[k][i] - fd).abs() > 1e-8 * scale { bad.push(format!("J[{}][{}] = {} but the forward difference with the given step {} is {} (wrapped {})", k, i, jm[k][i], eps, fd, wrapped)); }
+                        }
+                    }
+                }
                 // velocities reproduce the twist through J; isometry- and vector-based entry points agree; torques are J^T F
                 let w = Vector6::new(0.1, -0.2, 0.05, 0.3, 0.1, -0.15);
                 if let Ok(v) = jac.velocities_from_vector(&w) { for k in 0..6 { let r: f64 = (0..6).map(|i| jm[k][i] * v[i]).sum(); if (r - w[k]).abs() > 1e-6 * (1.0 + v.iter().map(|a| a.abs()).sum::<f64>()) { bad.push(format!("J * velocities != twist (component {})", k)); } } }
@@ -729,6 +800,18 @@ pub fn c13(c: &Case) {
                     for n in &path { if k.collides(n) { bad.push(format!("planar scene: path node {:?} is reported colliding", n)); } for j in 0..6 { if n[j] < lf[j] - 1e-12 || n[j] > lt[j] + 1e-12 { bad.push(format!("planar scene: node {:?} outside the limits", n)); } } }
                     for w in path.windows(2) { let d: f64 = (0..6).map(|j| (w[0][j] - w[1][j]).powi(2)).sum::<f64>().sqrt(); if d > 3.0 * step + 1e-9 { bad.push(format!("planar scene: consecutive nodes {:.4} apart, more than three steps", d)); } }
                 } else { nerr += 1; }
+            }
+            // a very fine planner step is honoured: consecutive nodes at most three of THE CONFIGURED steps apart (short free relocation, so the tree stays small)
+            for fine in [0.0004f64, 0.0006] {
+                let planner = RRTPlanner { step_size_joint_space: fine, max_try: 4000, debug: false };
+                let (s2, g2) = ([-0.8, 1.3, 0.0, 0.0, 0.0, 0.0], [-0.79, 1.305, 0.0, 0.0, 0.0, 0.0]);
+                for _rep in 0..3 {
+                    tried += 1; let stop = AtomicBool::new(false);
+                    if let Ok(path) = planner.plan_rrt(&s2, &g2, &k, &stop) {
+                        if path.first() != Some(&s2) || path.last() != Some(&g2) { bad.push("fine step: path does not join start to goal".into()); }
+                        for w in path.windows(2) { let d: f64 = (0..6).map(|j| (w[0][j] - w[1][j]).powi(2)).sum::<f64>().sqrt(); if d > 3.0 * fine + 1e-12 { bad.push(format!("fine step {}: consecutive nodes {:.6} apart = {:.1} planner steps", fine, d, d / fine)); break; } }
+                    }
+                }
             }
         }
     }
